@@ -50,6 +50,8 @@ inductive Expr
   | list (xs : List Expr)
   | tuple (xs : List Expr)
   | index (e : Expr) (i : Int)
+  | comp (elt : Expr) (x : String) (iter : Expr)      -- `[elt for x in iter]` / a generator expression
+  | fstr                                               -- an f-string: some string (its text is never looked at)
   | unsupported (what : String)
   deriving Repr, Inhabited
 
@@ -61,7 +63,9 @@ inductive Stmt
   | raise (what : String)
   | ifs (c : Expr) (t : List Stmt) (e : List Stmt)
   | for_ (x : String) (iter : Expr) (body : List Stmt)
-  | expr (e : Expr)
+  | setattr (obj : Expr) (a : String) (e : Expr)       -- `obj.a = e`   (an effect: logged, see `traceVar`)
+  | setitem (obj : Expr) (key : Expr) (e : Expr)       -- `obj[key] = e` (an effect: logged)
+  | expr (e : Expr)                                    -- expression statement; a call is an effect: logged
   | pass
   | unsupported (what : String)
   deriving Repr, Inhabited
@@ -256,6 +260,11 @@ def builtin (f : String) (args : List Val) : Option Val :=
   | "sum", [v] => match v.elems? with
       | some xs => (intsOf? xs).map (fun is => .int (is.foldl (· + ·) 0))
       | none => some (.err "sum: not a sequence")
+  | "any", [v] => v.elems?.map (fun xs => .bool (xs.any (fun x => x.truthy == some true)))
+  | "all", [v] => v.elems?.map (fun xs => .bool (xs.all (fun x => x.truthy == some true)))
+  | "reversed", [v] => v.elems?.map (fun xs => .list xs.reverse)
+  | "dict", [] => some (.list [])               -- the empty mapping (its only use in the fragment: membership, hooks for lookups)
+  | "tqdm", v :: _ => some v                    -- progress bar: the iterable itself
   | "np.asarray", [v] => v.elems?.map .arr
   | "np.array", [v] => v.elems?.map .arr
   | _, _ => none
@@ -314,6 +323,11 @@ def eval (env : Env) (vs : Vars) : Expr → Val
   | .list xs => .list (evalList env vs xs)
   | .tuple xs => .tuple (evalList env vs xs)
   | .index e i => indexVal (eval env vs e) i
+  | .comp elt x iter =>
+      match (eval env vs iter).elems? with
+      | some vals => .list (vals.map (fun v => eval env (vs.set x v) elt))
+      | none => .err "comprehension over a non-sequence"
+  | .fstr => .str "<f-string>"
   | .unsupported what => .err ("unsupported expression: " ++ what)
 def evalList (env : Env) (vs : Vars) : List Expr → List Val
   | [] => []
@@ -362,7 +376,17 @@ def exec (env : Env) (vs : Vars) : Stmt → Outcome
       match (eval env vs iter).elems? with
       | some vals => forLoop (fun vs' v => execBlock env (vs'.set x v) body) vals vs
       | none => .raised "for: not a sequence"
-  | .expr e => if (eval env vs e).isErr then .raised "error value" else .cont vs
+  | .setattr obj _ e =>
+      if (eval env vs obj).isErr || (eval env vs e).isErr then .raised "error value in attribute assignment" else .cont vs
+  | .setitem obj key e =>
+      if (eval env vs obj).isErr || (eval env vs key).isErr || (eval env vs e).isErr then .raised "error value in item assignment"
+      else .cont vs
+  | .expr e =>
+      match e with
+      | .mcall recv _ args =>
+          if (eval env vs recv).isErr || (evalList env vs args).any Val.isErr then .raised "error value in call" else .cont vs
+      | .call _ args => if (evalList env vs args).any Val.isErr then .raised "error value in call" else .cont vs
+      | _ => if (eval env vs e).isErr then .raised "error value" else .cont vs
   | .pass => .cont vs
   | .unsupported what => .raised ("unsupported statement: " ++ what)
 def execBlock (env : Env) (vs : Vars) : List Stmt → Outcome
@@ -384,5 +408,47 @@ def callFn (env : Env) (fn : FnDef) (args : List Val) : Val :=
   | .ret v => v
   | .cont _ => .none
   | .raised what => .err ("raised: " ++ what)
+
+/-! ### effects
+
+The state the fragment knows is the variable store; objects are values.  What a function DOES to objects — attribute and item
+assignments, calls made as statements — is not executed but RECORDED: `effBlock` returns, for the path `exec` takes, the list of
+events in program order.  (Reads after a write see the old value; the translated functions never read back what they wrote.) -/
+
+/-- events of a loop: the body's events for each element, while the body continues. -/
+def forEff (step : Vars → Val → Outcome) (eff : Vars → Val → List Val) : List Val → Vars → List Val
+  | [], _ => []
+  | v :: rest, vs =>
+    eff vs v ++ (match step vs v with
+      | .cont vs' => forEff step eff rest vs'
+      | _ => [])
+
+mutual
+def effStmt (env : Env) (vs : Vars) : Stmt → List Val
+  | .setattr obj a e => [.tuple [.str "setattr", eval env vs obj, .str a, eval env vs e]]
+  | .setitem obj key e => [.tuple [.str "setitem", eval env vs obj, eval env vs key, eval env vs e]]
+  | .expr (.mcall recv m args) => [.tuple (.str "call" :: eval env vs recv :: .str m :: evalList env vs args)]
+  | .expr (.call f args) => [.tuple (.str "call" :: .none :: .str f :: evalList env vs args)]
+  | .ifs c t e =>
+      match (eval env vs c).truthy with
+      | some true => effBlock env vs t
+      | some false => effBlock env vs e
+      | none => []
+  | .for_ x iter body =>
+      match (eval env vs iter).elems? with
+      | some vals => forEff (fun vs' v => execBlock env (vs'.set x v) body) (fun vs' v => effBlock env (vs'.set x v) body) vals vs
+      | none => []
+  | _ => []
+def effBlock (env : Env) (vs : Vars) : List Stmt → List Val
+  | [] => []
+  | s :: ss =>
+    effStmt env vs s ++ (match exec env vs s with
+      | .cont vs' => effBlock env vs' ss
+      | _ => [])
+end
+
+/-- the effects a translated function performs when called (on the path it takes). -/
+def callEffects (env : Env) (fn : FnDef) (args : List Val) : List Val :=
+  if fn.params.length != args.length then [] else effBlock env (bindParams fn.params args []) fn.body
 
 end Qco.Py
